@@ -243,6 +243,11 @@ const agg2CmpBodyRaw = `// check to see if anything needs to be created
 			retVal = a
 		{{if .VV -}}
 		case same && safe && reuse != nil:
+			if bd, ok := b.(DenseTensor); ok && bd == reuse {
+				// the destination is the second operand, and the first one is about to be copied over it: work from a copy of b
+				cloned := b.Clone().(Tensor)
+				dataB, bit = cloned.hdr(), cloned.Iterator()
+			}
 			storage.CopyIter(typ,dataReuse,dataA, iit, ait)
 			ait.Reset()
 			iit.Reset()
@@ -306,6 +311,10 @@ const agg2CmpBodyRaw = `// check to see if anything needs to be created
 			retVal = a
 		{{if .VV -}}
 		case same && safe && reuse != nil:
+		if bd, ok := b.(DenseTensor); ok && bd == reuse {
+				// the destination is the second operand, and the first one is about to be copied over it: work from a copy of b
+				dataB = b.Clone().(Tensor).hdr()
+			}
 			storage.Copy(typ,dataReuse,dataA)
 			err = e.E.{{.Name}}Same(typ, dataReuse, dataB)
 			retVal = reuse
